@@ -40,6 +40,10 @@ fn main() {
   log::install_panic_hook();
   vtime::install();
   conc::install();
+  if cfg.mode == "miri" {
+    props::thr::miri_main(&cfg);
+    return;
+  }
   let t0 = std::time::Instant::now();
   let mut rep = Report::new();
   if !props::run(&cfg, &mut rep) {
